@@ -582,7 +582,9 @@ class Grammar_is_use_generator(Contract):
 
     def fresh_result(self, cx, a):
         t = a["tree"]
-        sym = t.fields.get("_symbol")
+        sym = t.fields.get("_symbol") if isinstance(t, SObj) else None
+        if sym is None or getattr(sym, "ident", None) is None:
+            return cx.bool("is_use_generator")          # a tree the contract knows nothing about: any answer
         return SBool(UsesGenerator(a["self"].ident, sym.ident))
 
 
@@ -971,3 +973,150 @@ class Grammar_generate_verified(Contract):
         if exc.cls == "FandangoParseError":
             return [("parse_error_only_when_the_value_does_not_parse", z3.BoolVal("parse_result" in cx.ghost and cx.ghost["parse_result"] is None))]
         return []
+
+
+# ------------------------------------------------------------------------------------------------ replace_multiple, generator-defined node (C16)
+
+ReplacedOf = tree_contracts.ReplacedOf                   # identity of the tree the recursive call returns for a given node
+TreeEq = tree_contracts.Tree_eq.TreeEq
+
+
+def _membership_list(cx, label):
+    l = cx.opaque_list(cx.int("n_" + label, lo=0), label=label)
+    l.ghost["contains"] = lambda x: cx.bool("in_" + label)
+    return l
+
+
+def _ancestor(cx):
+    """some ancestor of the receiver (or None): only membership tests and the step to its own parent are performed on it"""
+    up = cx.opaque("DerivationTree", base="grand_ancestor", maybe_none=cx.bool("grand_ancestor_is_none").term)
+    a = cx.opaque("DerivationTree", base="ancestor", maybe_none=cx.bool("ancestor_is_none").term)
+    a.attrs.update({"sources": _membership_list(cx, "ancestor_sources"), "children": _membership_list(cx, "ancestor_children"), "parent": up})
+    return a
+
+
+def _gen_sources_havoc(cx, env, i):
+    env["sources"] = cx.opaque_list(i, fresh=True, label="new_sources")
+    env["regen_children"] = cx.bool("regen_children")
+
+
+def _changed_upto(cx, lst, it):
+    """exists j < it: the recursive result for element j differs (==) from element j"""
+    idf = lst.ghost["id_fn"]
+    j = z3.Int(cx._name("cj"))
+    return z3.Exists([j], And(j >= 0, j < it, Not(TreeEq(ReplacedOf(idf(j)), idf(j)))))
+
+
+def _gen_sources_inv(cx, env, i):
+    l = env["sources"]
+    n = l.length if not l.concrete else len(l.items)
+    it = idx_term(i) if not isinstance(i, int) else z3.IntVal(i)
+    return [("sources_has_one_entry_per_visited_node", T(cmp("==", n, i))),
+            ("regen_children_iff_a_visited_argument_changed", T(env["regen_children"]) == _changed_upto(cx, env["self"].fields["_sources"], it))]
+
+
+def _gen_children_havoc(cx, env, i):
+    env["new_children"] = cx.opaque_list(i, fresh=True, label="new_children")
+    env["regen_params"] = cx.bool("regen_params")
+
+
+def _gen_children_inv(cx, env, i):
+    l = env["new_children"]
+    n = l.length if not l.concrete else len(l.items)
+    it = idx_term(i) if not isinstance(i, int) else z3.IntVal(i)
+    return [("new_children_has_one_entry_per_visited_node", T(cmp("==", n, i))),
+            ("regen_params_iff_a_visited_child_changed", T(env["regen_params"]) == _changed_upto(cx, env["self"].fields["_children"], it))]
+
+
+def _walk_havoc(cx, env, i):
+    env["self_is_generator_child"] = cx.bool("self_is_generator_child")
+    env["current"] = cx.opaque("DerivationTree", base="current")
+    env["current_parent"] = _ancestor(cx)
+
+
+@register
+class Grammar_derive_generator_output(Contract):
+    """assumed: re-runs the generator of the tree's symbol on the tree's recorded sources (= Grammar.generate(...).children)"""
+    target = f"{GRAMMAR}:Grammar.derive_generator_output"
+    trusted = True
+
+    def may_raise(self, cx, a):
+        return [("FandangoParseError", None), ("Exception", None)]
+
+    def fresh_result(self, cx, a):
+        from pyvc.lists import heap_list
+        l = heap_list(cx, "regenerated_children", cx.int("n_regenerated", lo=0), "DerivationTree", tree_contracts.CHILD_FIELDS, fresh=True)
+        cx.ghost["regenerated"] = (a["tree"], a["tree"].fields.get("_sources"), l)
+        return l
+
+
+@register
+class Grammar_derive_sources(Contract):
+    """assumed: recomputes the argument trees of a generator-defined tree from its current children"""
+    target = f"{GRAMMAR}:Grammar.derive_sources"
+    trusted = True
+
+    def may_raise(self, cx, a):
+        return [("FandangoValueError", None)]
+
+    def fresh_result(self, cx, a):
+        from pyvc.lists import heap_list
+        l = heap_list(cx, "derived_sources", cx.int("n_derived_sources", lo=0), "DerivationTree", tree_contracts.CHILD_FIELDS, fresh=True)
+        cx.ghost["rederived_sources"] = (a["tree"], l)
+        return l
+
+
+@register
+class Tree_replace_multiple_generator(tree_contracts.Tree_replace_multiple):
+    """a node whose symbol is defined by a generator and that is not itself replaced:
+      * if (and only if) one of its recorded argument trees changed, its children are the output of re-running the generator on
+        the NEW argument trees (unless the node sits below another generator's output, where nothing is regenerated);
+      * else, if one of its children changed, its sources are re-derived from the new children;
+      * otherwise children and sources are the recursively rebuilt ones."""
+    key = f"{tree_contracts.REL}:DerivationTree.replace_multiple@generator"
+    properties = ("C16",)
+    loops = dict(tree_contracts.Tree_replace_multiple.loops)
+    loops[2] = Loop(2, iter_text="enumerate(self._sources)", inv=_gen_sources_inv, havoc=_gen_sources_havoc,
+                    modifies=("sources", "regen_children", "i", "param", "new_param"))
+    loops[3] = Loop(3, iter_text="enumerate(self._children)", inv=_gen_children_inv, havoc=_gen_children_havoc,
+                    modifies=("new_children", "regen_params", "i", "child", "new_child"))
+    loops[4] = Loop(4, iter_text="current_parent is not None", inv=lambda cx, env, i: [], havoc=_walk_havoc,
+                    modifies=("self_is_generator_child", "current", "current_parent"))
+
+    def inputs(self, cx):
+        a = self._base_inputs(cx, generator=True)
+        s = a["self"]
+        # the node itself is not replaced at this path (that branch is the subject of the base contract)
+        cx.assume(Not(z3.Select(cx.ghost["p2r_keys0"], cx.ghost["cur_path"].ident)))
+        s.fields["_parent"] = _ancestor(cx)          # the parent (or None): only walked upwards by the generator-child test
+        return a
+
+    def ensures(self, cx, a, r):
+        if cx.ghost.get("call_site"):
+            return []
+        s = a["self"]
+        if not isinstance(r, SObj):
+            raise Unsupported("replace_multiple does not return a tree object the contract can read")
+        n_src = to_term_int(s.fields["_sources"].length)
+        n_kids = to_term_int(s.fields["_children"].length)
+        arg_changed = _changed_upto(cx, s.fields["_sources"], n_src)
+        child_changed = _changed_upto(cx, s.fields["_children"], n_kids)
+        regen = cx.ghost.get("regenerated")
+        reder = cx.ghost.get("rederived_sources")
+        kids = r.fields.get("_children")
+        srcs = r.fields.get("_sources")
+        below_generator = cx.ghost.get("walk_says_generator_child")
+        out = [("result_is_a_new_node_with_the_receivers_symbol", z3.BoolVal(r.fresh and r is not s and r.fields.get("_symbol") is s.fields["_symbol"]))]
+        reran = regen is not None and regen[0] is r and kids is regen[2]
+        cleared = isinstance(srcs, SList) and srcs.concrete and not srcs.items
+        out.append(("generator_is_rerun_only_when_an_argument_changed", Implies(z3.BoolVal(reran), arg_changed)))
+        out.append(("an_argument_change_reruns_the_generator_or_the_node_is_below_generator_output",
+                    Implies(arg_changed, z3.BoolVal(reran or cleared))))
+        if reran:
+            out.append(("generator_is_rerun_on_the_new_argument_trees",
+                        z3.BoolVal(isinstance(regen[1], SList) and regen[1].fresh and regen[1].label == "new_sources")))
+        out.append(("sources_rederived_only_when_a_child_changed_and_no_argument_did",
+                    Implies(z3.BoolVal(reder is not None), And(child_changed, Not(arg_changed)))))
+        out.append(("a_child_change_without_argument_change_rederives_the_sources",
+                    Implies(And(child_changed, Not(arg_changed)), z3.BoolVal(reder is not None and reder[0] is r and srcs is reder[1]))))
+        return out
